@@ -268,13 +268,21 @@ class NeighborCounter:
         self.real = helpers.neighbors
         self.calls = 0
         self.limit = None
+        self.depth = 0
 
     def __enter__(self):
         def counted(*a, **kw):
-            self.calls += 1
-            if self.limit is not None and self.calls > self.limit:
-                raise ExpansionBound()
-            return self.real(*a, **kw)
+            # only outermost calls are expansions of the traversal under test: a (pure) filter may itself run
+            # a nested traversal, whose neighbors() calls must not be charged to the outer one
+            self.depth += 1
+            try:
+                if self.depth == 1:
+                    self.calls += 1
+                    if self.limit is not None and self.calls > self.limit:
+                        raise ExpansionBound()
+                return self.real(*a, **kw)
+            finally:
+                self.depth -= 1
 
         counted.__wrapped__ = self.real
         self.helpers.neighbors = counted
@@ -282,6 +290,7 @@ class NeighborCounter:
 
     def arm(self, limit):
         self.calls = 0
+        self.depth = 0
         self.limit = limit
 
     def disarm(self):
